@@ -142,7 +142,25 @@ func Load(repo, tier string, tests bool) (*Ctx, error) {
 			continue
 		}
 		if !kept[o.Pkg] {
-			continue // instantiation of a generic from a package copy we skip
+			// instantiation of a generic from a package copy we skip — except the production instantiation
+			// (type arguments declared outside _test.go files), which exists only on the plain copy because its
+			// user imports the plain package (e.g. WriteAheadLog[walEntry] used by the root package)
+			prod := true
+			for _, ta := range f.TypeArgs() {
+				t := ta
+				if pt, ok := t.(*types.Pointer); ok {
+					t = pt.Elem()
+				}
+				if nt, ok := t.(*types.Named); ok && nt.Obj() != nil {
+					pos := prog.Fset.Position(nt.Obj().Pos())
+					if strings.HasSuffix(pos.Filename, "_test.go") {
+						prod = false
+					}
+				}
+			}
+			if !prod {
+				continue
+			}
 		}
 		add(f)
 	}
@@ -164,7 +182,20 @@ func Load(repo, tier string, tests bool) (*Ctx, error) {
 			score := func(g *ssa.Function) int {
 				s := 0
 				if len(g.TypeArgs()) > 0 && !strings.Contains(g.String(), "_test") && !strings.Contains(g.String(), "test.") {
-					s += 1000000
+					prod := true
+					for _, ta := range g.TypeArgs() {
+						if nt, ok := ta.(*types.Named); ok && nt.Obj() != nil && c.IsTestFile(nt.Obj().Pos()) {
+							prod = false // instantiated with a type declared in a _test.go file
+						}
+						if pt, ok := ta.(*types.Pointer); ok {
+							if nt, ok := pt.Elem().(*types.Named); ok && nt.Obj() != nil && c.IsTestFile(nt.Obj().Pos()) {
+								prod = false
+							}
+						}
+					}
+					if prod {
+						s += 1000000
+					}
 				}
 				for _, b := range g.Blocks {
 					s += len(b.Instrs)
